@@ -1427,6 +1427,53 @@ example : (gammatoneErbConstants 4 : ℝ × ℝ).1 = 16 / (5 * Real.pi) := by
 -- 12g / 12h: delay 3, alpha 1/2, a 5-sample signal: n = 4 ≥ 3 and n = 1 < 3 are both instances
 example : (4 : ℕ) < ([1, 2, 3, 4, 5] : List ℝ).length ∧ ¬ (4 < 2 + 1) ∧ (1 : ℕ) < 2 + 1 := by simp
 
+/-- **C13.12p** reading a lazy `erb` result ON: with no `Hz`, frequencies `pre` (all accepted), then one below 7,
+then anything: the reads show the single calls on `pre`, then the `ValueError`, and from then on
+`StopIteration` for ever (`none`) — the frequencies behind the refused one are never evaluated; with every
+frequency accepted the reads are the single calls and then `StopIteration`. -/
+theorem erb_lazy_reading_on (st : Option ErbStrategy) (pre post : List ℝ) (f : ℝ) (hpre : ∀ g ∈ pre, 7 ≤ g) (n : ℕ) :
+    (f < 7 →
+      erbCallLazy st (pre ++ f :: post) none = pre.map (fun g => .ok (erb (st.getD .gm90) g 1)) ++ [.error ()] ∧
+      ∀ k, k < n → (erbLazyReads st (pre ++ f :: post) none n)[k]? = some
+        (if k < pre.length then some (.ok (erb (st.getD .gm90) (pre.getD k 0) 1))
+         else if k = pre.length then some (.error ()) else none)) ∧
+    (∀ k, k < n → (erbLazyReads st pre none n)[k]? = some
+        (if k < pre.length then some (.ok (erb (st.getD .gm90) (pre.getD k 0) 1)) else none)) := by
+  have hok : ∀ l : List ℝ, (∀ g ∈ l, 7 ≤ g) → ∀ rest : List ℝ,
+      erbCallLazy st (l ++ rest) none = l.map (fun g => .ok (erb (st.getD .gm90) g 1)) ++ erbCallLazy st rest none := by
+    intro l hl rest
+    induction l with
+    | nil => rfl
+    | cons g l ih =>
+      have h7 := hl g (by simp)
+      simp [erbCallLazy, (erb_call st g).2.1 h7, ih (fun x hx => hl x (by simp [hx]))]
+  have hreads : ∀ (l : List ℝ) (k : ℕ), k < n →
+      (erbLazyReads st l none n)[k]? = some ((erbCallLazy st l none)[k]?) := by
+    intro l k hk
+    simp [erbLazyReads, hk]
+  refine ⟨fun hf => ?_, fun k hk => ?_⟩
+  · have hlazy : erbCallLazy st (pre ++ f :: post) none
+        = pre.map (fun g => .ok (erb (st.getD .gm90) g 1)) ++ [.error ()] := by
+      rw [hok pre hpre]; simp [erbCallLazy, (erb_call st f).1 hf]
+    refine ⟨hlazy, fun k hk => ?_⟩
+    rw [hreads _ k hk, hlazy]
+    by_cases h1 : k < pre.length
+    · simp [h1, List.getElem?_append_left, List.getD_eq_getElem?_getD]
+    · by_cases h2 : k = pre.length
+      · subst h2; simp
+      · have : pre.length + 1 ≤ k := by omega
+        simp [h1, h2, List.getElem?_eq_none, this]
+  · rw [hreads _ k hk]
+    have := hok pre hpre []
+    rw [List.append_nil] at this
+    rw [this]
+    by_cases h1 : k < pre.length
+    · simp [h1, erbCallLazy, List.getD_eq_getElem?_getD]
+    · simp [h1, erbCallLazy, List.getElem?_eq_none, Nat.le_of_not_lt h1]
+
+-- 12p: 1000 Hz, then 5 (refused), then 2000 Hz, four reads
+example : (∀ g ∈ ([1000] : List ℝ), 7 ≤ g) ∧ (5 : ℝ) < 7 := by constructor <;> norm_num
+
 /-! ### 13. Stream-valued arguments: the tee-hub machine of the strategy bodies (`ALV/Model/C13Thub.lean`)
 
 Each strategy body is transcribed as a program over iterator objects (the caller's argument used
